@@ -5,6 +5,8 @@
 
 pub mod bus;
 pub mod peer;
+#[cfg(not(miri))]
+pub mod realbus;
 pub mod realsock;
 pub mod sched;
 pub mod util;
